@@ -31,7 +31,7 @@ var (
 var algBits = map[uint8][]int{
 	// 4096: the largest modulus the library accepts; 1026 / 1031: moduli whose bit length is not a multiple
 	// of 8 (signature and modulus take (bits+7)/8 octets)
-	dns.RSASHA1: {1024, 1026}, dns.RSASHA256: {1024, 2048, 1031}, dns.RSASHA512: {1024, 4096},
+	dns.RSASHA1: {1024, 1026}, dns.RSASHA1NSEC3SHA1: {1024}, dns.RSASHA256: {1024, 2048, 1031}, dns.RSASHA512: {1024, 4096},
 	dns.ECDSAP256SHA256: {256}, dns.ECDSAP384SHA384: {384}, dns.ED25519: {256},
 }
 
